@@ -35,7 +35,7 @@ WRAP = {
 EXPRS = ['x', 'a + 1', "f1('a:b', 2)", "'s)'", '"q:"', '(a)', '!a', '-1', '[v w]', 'a == b', 'g2(  b )', 'a * (b - 1)', "'it\\'s'", '1.5',
          'a ? b', '1 +', "'open", 'f1(a', ')', 'a b', '']
 NAMES = ['a', 'b1', '_x', 'lbl', 'in', 'if', 'jump', 'endif', 'return', 'f1', 'Z9', 'include']
-BADNAMES = ['1a', 'a-b', 'a.b', '', 'é']
+BADNAMES = ['1a', 'a-b', 'a.b', '', '9']          # ASCII only: the host's \w also takes non-ASCII letters, BareStatement does not model them
 
 
 def ws(rnd, must=False):
